@@ -21,7 +21,7 @@ INFO = {
  "C13": dict(level="bounded: real pipe.rs for each descriptor kind at any fill level (capacity 3), bursts <=2, plus three rejection causes; a write that would sleep on a full descriptor is judged where the model cuts the path",
              note="descriptor behaviour is a model (EAGAIN iff full and MSG_DONTWAIT/O_NONBLOCK; ENOTSOCK for send on pipes/files); release of the descriptor when the refusal is a panic (unwinding) is outside: Kani has no unwinding",
              technique=SEQ + KM),
- "C15": dict(level="bounded: every status (c_int), both registration orders, every arm/disarm/deliver history of length 3 (thorough: 6) through the real dispatcher; _exit / exit / raw SYS_exit (thread only) / SYS_exit_group distinguished by the model",
+ "C15": dict(level="bounded: every status (c_int), both registration orders, every arm/disarm/deliver history of length 3 (thorough: 6) through the real dispatcher, also when the application hands over its only strong reference and arms/disarms through a Weak (any initial value); _exit / exit / raw SYS_exit (thread only) / SYS_exit_group distinguished by the model",
              note="process termination is a model event (_exit/exit/abort/killed); atexit machinery itself not modelled",
              technique=SEQ + KM),
  "C16": dict(level="all 2^32 signal numbers x {normal context, inside the signal's own blocked handler}: outcome of the real emulate_default_handler equals the live kernel's default disposition table; names equal the platform's",
